@@ -23,7 +23,7 @@ RULE = ("generated datasets: daily meter (local midnight, or another fixed hour)
 ASSUMPTIONS = ["the final meter day (open-ended last interval) is excluded", "means are compared with 1e-9 relative tolerance (sum re-association)",
                "'readings of a day' are the feed timestamps inside the meter day; a DST day has 23 or 25 hourly readings"]
 REQUIRED_REACH = {"dataset.judged": 40, "day.mean_compared": 4000, "day.expected_missing": 100, "day.exactly_half": 20, "counts.days_compared": 1500,
-                  "feed.half_hourly": 8, "day.dst": 8, "day.dst_around_half": 4, "hook.check_data_sufficiency": 40}
+                  "feed.half_hourly": 8, "day.dst": 8, "day.dst_around_half": 4, "hook.check_data_sufficiency": 40, "meter.zero_reads": 10, "meter.days_without_usage": 20}
 
 VIOL = []
 SUFF = []
@@ -123,6 +123,18 @@ def run_case(spec):
     if mh:
         midx = midx + pd.Timedelta(hours=mh)
     y = np.round(20 + rng.normal(0, 2, ndays), 3)
+    if spec.get("usage_nan_run"):
+        # days without a usage reading (a run and a few isolated ones) in the interior: their temperature, and their neighbours', is untouched
+        ur = np.random.default_rng([spec["seed"], 910, spec["n"]])
+        a = int(ur.integers(5, ndays - 5 - int(spec["usage_nan_run"])))
+        y[a:a + int(spec["usage_nan_run"])] = np.nan
+        y[ur.choice(np.arange(3, ndays - 3), size=3, replace=False)] = np.nan
+        I.reach("meter.days_without_usage", int(np.isnan(y).sum()))
+    if spec.get("zero_reads"):
+        # electricity: a zero read is a missing READ; the temperature of that day is untouched
+        zr = np.random.default_rng([spec["seed"], 909, spec["n"]])
+        y[zr.choice(np.arange(3, ndays - 3), size=int(spec["zero_reads"]), replace=False)] = 0.0
+        I.reach("meter.zero_reads", int(spec["zero_reads"]))
     t0, t1 = midx[0], midx[-1] + pd.Timedelta(days=1)
     fidx = pd.date_range(t0.tz_convert("UTC"), t1.tz_convert("UTC"), freq="%dmin" % minutes, inclusive="left").tz_convert(ftz)
     hod = fidx.tz_convert(tz).hour.values + fidx.tz_convert(tz).minute.values / 60
@@ -258,4 +270,8 @@ def gen_cases(tier, seed):
         cases.append(dict(kind="dataset", cls=cls, entry=str(rng.choice(["series", "frame"], p=[0.7, 0.3])), tz=tz, feed_tz=ftz, minutes=minutes,
                           meter_hour=0 if rng.random() < 0.8 or cls.startswith("billing") else int(rng.choice([6, 7, 12])), pattern=pats[i % len(pats)],
                           start=start, days=int(rng.choice([40, 70, 100])) if not cls.startswith("billing") else 120, n=i))
+        if i % 4 == 1 and not cls.startswith("billing"):
+            cases[-1]["zero_reads"] = 1 + i % 5
+        if i % 4 == 3 and not cls.startswith("billing"):
+            cases[-1]["usage_nan_run"] = 2 + i % 6
     return cases
